@@ -13,6 +13,7 @@ CONFIGS = {
         ("1req+bg", 1, 1, True, None, True),
         ("2req", 2, 1, False, None, True),
         ("2req+bg/pb2", 2, 1, True, 2, True),
+        ("3req/pb1", 3, 1, False, 1, True),
     ],
     "thorough": [
         ("1req+bg", 1, 1, True, None, True),
